@@ -25,7 +25,7 @@ QUICK_SCALE = {"C01": 4, "C02": 1, "C03": 3, "C04": 3, "C05": 3, "C06": 3, "C07"
 
 
 # (halved on Oct 4 after the round-3/4 cells were added: ~14 min per property idle before, ~7-8 min now, so that all 20 fit in 3 h)
-THOROUGH_SCALE = {"C01": 4, "C02": 1, "C03": 1.5, "C04": 1, "C05": 3.5, "C06": 3, "C07": 4.5, "C08": 4.5, "C09": 2, "C10": 3, "C11": 6,
+THOROUGH_SCALE = {"C01": 4, "C02": 1, "C03": 1.5, "C04": 1, "C05": 3.5, "C06": 2, "C07": 4.5, "C08": 4.5, "C09": 2, "C10": 3, "C11": 6,
                   "C12": 3, "C13": 6, "C14": 4, "C15": 10, "C16": 7.5, "C17": 5, "C18": 1.25, "C19": 6, "C20": 7.5}
 
 
